@@ -1,6 +1,7 @@
 import RjModel.Lemmas.WireLemmas
 import RjModel.Model.Channel
 import RjModel.Generated.Skeletons
+import RjModel.Generated.LinkSocket
 /-! # C14 — messages arrive exactly once, in order and intact, with bounded buffering -/
 namespace Rj.C14
 open Rj Rj.Wire
@@ -186,5 +187,11 @@ example :
     (runSched 10 s [.recv, .fetchSub, .spinPass, .innerSend, .recv, .fetchSub, .recv, .fetchSub]).delivered = [8, 8, 8] ∧
     (runSched 10 s [.recv, .fetchSub, .spinPass, .innerSend, .recv, .fetchSub, .recv, .fetchSub]).counter = 0 := by
   decide
+
+/-- **The link is a plain blocking stream**: no read or write time-out and no non-blocking mode is set on any socket in
+the source (re-extracted on every run).  The delivery theorems speak about a stream that delivers the next byte or ends; a
+read that gives up after a silence is neither — a frozen peer, a slow disk or a user thinking about a prompt would lose
+messages that were still to come. -/
+theorem C14_link_socket_plain : Generated.linkSocketPlain = true := by decide
 
 end Rj.C14
